@@ -3,7 +3,9 @@ Require Import List String ZArith NArith QArith Qcanon Lia.
 Require Import MPSV.Inline.InlineModel MPSV.Inline.InlineDecl MPSV.Inline.InlineAlgebra
                MPSV.Inline.InlineParse MPSV.Inline.InlineParseMin MPSV.Inline.InlineSound MPSV.Inline.InlineFormal MPSV.Inline.InlineFormalInv
                MPSV.Inline.InlineGrammar MPSV.Inline.Gen.GrammarGen MPSV.Inline.InlineGrammarShape
-               MPSV.Inline.InlineLR MPSV.Inline.Gen.AutomatonGen MPSV.Inline.InlineLRCheck.
+               MPSV.Inline.InlineLR MPSV.Inline.Gen.AutomatonGen MPSV.Inline.InlineLRCheck
+               MPSV.Inline.InlineFormalMul MPSV.Inline.InlineFormalCoeff MPSV.Inline.InlineLRSound MPSV.Inline.InlineLRComplete
+               MPSV.Inline.InlineLRAll.
 Import ListNotations.
 
 (* The reference semantics is ordinary algebra over the Gaussian rationals (a commutative ring
@@ -19,24 +21,76 @@ Example C11_denote_example :
   = Some [CofQ 4 1; C0; Copp C1].
 Proof. vm_compute. reflexivity. Qed.
 
-(* mps::formal::Polynomial as coded, evaluation part.  PARTIAL: the linear operations (+= Monomial with
-   overwrite / add / resize and trimming, += and -= of polynomials, the action of unary minus) are
-   evaluation homomorphisms.  Still missing: the same for operator* (double loop, [fp_mul]) and hence
-   for ^k; this is exercised, not proved: the extracted driver compares [fp_denote] with [denote] on
-   every input of the correspondence run (output FPDIFF otherwise).  The normal form and the class
-   invariant ARE proved for all operations including * and ^k: see C11_formal_invariant below. *)
-Theorem C11_formal_ring_hom_partial :
+(* mps::formal::Polynomial as coded, linear part: += Monomial (overwrite of a zero entry / merge of equal
+   degrees / resize, then trimming of leading zeros), += and -= of polynomials and the action of unary
+   minus are evaluation homomorphisms.  (This theorem was called C11_formal_linear_eval_hom while the
+   product was missing; the product, the power and the whole action chain are C11_formal_mul_eval_hom and
+   C11_actions_denote below.) *)
+Theorem C11_formal_linear_eval_hom :
   (forall p m x, p <> [] -> fp_eval (fp_add_mono p m) x = Cadd (fp_eval p x) (Cmul (mc m) (Cpow x (md m)))) /\
   (forall p m, p <> [] -> fp_add_mono p m <> []) /\
   (forall p q x, p <> [] -> fp_ok q -> fp_eval (fp_add p q) x = Cadd (fp_eval p x) (fp_eval q x)) /\
   (forall p q x, p <> [] -> fp_ok q -> fp_eval (fp_sub p q) x = Csub (fp_eval p x) (fp_eval q x)) /\
   (forall p x, fp_ok p -> fp_eval (fp_neg p) x = Copp (fp_eval p x)).
 Proof. exact (conj fp_add_mono_eval (conj fp_add_mono_nonempty (conj fp_add_eval (conj fp_sub_eval fp_neg_eval)))). Qed.
-Print Assumptions C11_formal_ring_hom_partial.
+Print Assumptions C11_formal_linear_eval_hom.
 Example C11_formal_example :   (* x - x is trimmed back to the constant polynomial [0] *)
   fp_coeffs (fp_sub (fp_of_mono (mkM C1 1)) (fp_of_mono (mkM C1 1))) = [C0]
   /\ fp_ok (fp_of_mono (mkM C1 1)).
 Proof. split; [vm_compute; reflexivity|]. split; [discriminate|]. intros [|[|i]] Hi Hz; simpl in *; try reflexivity; try discriminate; lia. Qed.
+
+(* operator* as coded in formal-polynomial.cpp -- result = [0]; for every diagonal i = 0..deg+deg' and every
+   j = max(0,i-deg)..min(deg',i): result += mMonomials[i-j] * other.mMonomials[j], each addition going
+   through `+= Monomial` with its merge / overwrite / resize / trim branches, Monomial::operator* multiplying
+   the coefficients and ADDING THE DEGREE FIELDS (stale on zero entries) -- is an evaluation homomorphism on
+   polynomials that satisfy the class invariant; so is the '^' action (p = 1; k times p *= base), for
+   every k.  At the level of coefficients: the stored vector is the normal form of the Cauchy product. *)
+Theorem C11_formal_mul_eval_hom :
+  (forall p q x, fp_ok p -> fp_ok q -> fp_eval (fp_mul p q) x = Cmul (fp_eval p x) (fp_eval q x)) /\
+  (forall b k x, fp_ok b -> fp_eval (fp_pow b k) x = Cpow (fp_eval b x) k) /\
+  (forall p q, fp_ok p -> fp_ok q -> fp_coeffs (fp_mul p q) = stored (strip (pmul (fp_coeffs p) (fp_coeffs q)))).
+Proof. exact (conj fp_mul_eval (conj fp_pow_eval fp_mul_coeffs)). Qed.
+Print Assumptions C11_formal_mul_eval_hom.
+Example C11_formal_mul_example :   (* (x+1)*(x-1): the middle terms cancel through the merge branch; (x-x)*x is trimmed to [0] *)
+  fp_coeffs (fp_mul (fp_add (fp_of_mono (mkM C1 1)) (fp_of_mono (mkM C1 0))) (fp_sub (fp_of_mono (mkM C1 1)) (fp_of_mono (mkM C1 0))))
+    = [Copp C1; C0; C1] /\
+  fp_coeffs (fp_mul (fp_sub (fp_of_mono (mkM C1 1)) (fp_of_mono (mkM C1 1))) (fp_of_mono (mkM C1 1))) = [C0] /\
+  fp_ok (fp_add (fp_of_mono (mkM C1 1)) (fp_of_mono (mkM C1 0))).
+Proof. split; [vm_compute; reflexivity|]. split; [vm_compute; reflexivity|]. apply (proj1 (fp_add_inv _ _ fp_inv_x)). Qed.
+
+(* Polynomials over the Gaussian rationals are determined by their values (integral domain with infinitely
+   many points; factor theorem): equal values everywhere -> equal normal forms. *)
+Theorem C11_values_determine_coefficients : forall p q, (forall x, eval p x = eval q x) -> strip p = strip q.
+Proof. exact eval_eq_strip_eq. Qed.
+Print Assumptions C11_values_determine_coefficients.
+
+(* END TO END for the semantic actions: for EVERY expression the mps::formal::Polynomial built by the grammar
+   actions along it (fp_denote: new_with_monomial, sum_eq_p, sub_eq_p, mul_eq, 0 - p, repeated mul_eq) has
+   the value of the expression at every point, and the coefficient vector it holds -- what createMonomialPoly
+   copies out -- is exactly the polynomial the expression denotes (the zero polynomial being stored as the
+   single coefficient 0).  In particular for every token list accepted by the reference parser. *)
+Theorem C11_actions_denote :
+  (forall e x, fp_eval (fp_denote e) x = eval_expr e x) /\
+  (forall e, fp_coeffs (fp_denote e) = stored (denote e)) /\
+  (forall ts e, parse_ref ts = Some e -> d_sum ts e /\ fp_coeffs (fp_denote e) = stored (denote e)).
+Proof.
+  split; [exact fp_denote_eval|]. split; [exact fp_denote_coeffs|].
+  intros ts e H. split; [apply parse_ref_sound; exact H | apply fp_denote_coeffs].
+Qed.
+Print Assumptions C11_actions_denote.
+(* the two coefficient lists the extracted driver prints for a string are always related in this way
+   (the driver's FPDIFF branch is unreachable) *)
+Theorem C11_run_string_consistent : forall s a b, run_string s = Some (a, b) ->
+  exists e, a = map coeff_out (denote e) /\ b = map coeff_out (stored (denote e)).
+Proof.
+  intros s a b H. unfold run_string in H. destruct (lex s); [|discriminate]. destruct (parse_ref l) as [e|]; [|discriminate].
+  inversion H; subst. exists e. split; [reflexivity | rewrite fp_denote_coeffs; reflexivity].
+Qed.
+Print Assumptions C11_run_string_consistent.
+Example C11_actions_example :   (* (x+1)^2-(x^2+2*x+1) cancels to zero: denote gives [], the class holds [0] *)
+  option_map (fun e => (denote e, fp_coeffs (fp_denote e)))
+     (match lex "(x+1)^2-(x^2+2*x+1)" with Some ts => parse_ref ts | None => None end) = Some ([], [C0]).
+Proof. vm_compute. reflexivity. Qed.
 
 (* The class invariant of mps::formal::Polynomial -- vector never empty, a non-zero entry carries its index
    as degree, no trailing zero except in the constant polynomial -- is established by `+= Monomial` from
@@ -112,10 +166,75 @@ Theorem C11_yacc_table_from_precedence :
   deterministic automaton_gen = true.
 Proof. exact table_from_precedence. Qed.
 Print Assumptions C11_yacc_table_from_precedence.
-(* BOUNDED: on every token list of length <= 6 over one representative of each kind of token the
+(* ALL LENGTHS, soundness direction.  [lr_check] is a boolean check of bison's table alone (shifts and gotos
+   enter states of the right kind; every path into a state where a rule is reduced spells its right-hand
+   side; Mul/Add/Sub/Neg are reduced only over a tight enough right operand and never when the lookahead
+   binds tighter; a polynomial state that shifts '*' ('+','-') accepts products (sums); accept only after
+   $end over a lone complete polynomial).  The state annotation is computed from the table.  The theorem
+   proved from it (InlineLRSound.lr_sound, generic in the automaton, by an LR-stack typing invariant) says:
+   for token lists of ANY length and ANY fuel, if the table-driven parser accepts with AST e then the token
+   list is a well-formed expression of the declarative grammar of the property and e is its reading. *)
+Theorem C11_yacc_table_checked :
+  a_rules automaton_gen = rules0 /\ lr_check automaton_gen (infer_kinds automaton_gen) = true.
+Proof. exact (conj gen_rules gen_check). Qed.
+Print Assumptions C11_yacc_table_checked.
+Theorem C11_yacc_sound_all_lengths : forall f ys e, Forall ytok_ok ys ->
+  lr_loop automaton_gen f [] ys = LAccept e -> d_sum (map snd ys) e.
+Proof. exact yacc_sound. Qed.
+Print Assumptions C11_yacc_sound_all_lengths.
+(* the same for any automaton that passes the check with any annotation (what the re-check uses when the
+   grammar file is edited and bison produces another table) *)
+Theorem C11_lr_check_sound : forall a kinds, a_rules a = rules0 -> lr_check a kinds = true ->
+  forall f ys e, Forall ytok_ok ys -> lr_loop a f [] ys = LAccept e -> d_sum (map snd ys) e.
+Proof. exact lr_sound. Qed.
+Print Assumptions C11_lr_check_sound.
+
+(* ALL LENGTHS, completeness direction (for the imported table, by following the derivation through the states
+   that expect an operand; InlineLRComplete): every well-formed expression is accepted with exactly its AST,
+   within the fuel of [lr_run].  Hence: the generated parser accepts e  <=>  the declarative grammar derives e;
+   it accepts whatever the reference parser accepts, with the same AST; and the declarative grammar of the
+   property is unambiguous. *)
+Theorem C11_yacc_sound_and_complete : forall ys e, Forall ytok_ok ys ->
+  (lr_run automaton_gen ys = LAccept e <-> d_sum (map snd ys) e).
+Proof. exact yacc_iff. Qed.
+Print Assumptions C11_yacc_sound_and_complete.
+Theorem C11_yacc_agrees_ref : forall ys e, Forall ytok_ok ys ->
+  parse_ref (map snd ys) = Some e -> lr_run automaton_gen ys = LAccept e.
+Proof. exact yacc_agrees_ref_all. Qed.
+Print Assumptions C11_yacc_agrees_ref.
+Theorem C11_grammar_unambiguous : forall ts e e', d_sum ts e -> d_sum ts e' -> e = e'.
+Proof. exact d_sum_unambiguous. Qed.
+Print Assumptions C11_grammar_unambiguous.
+
+(* THE PROPERTY for the modelled pipeline as generated (flex token names -> bison's table -> grammar actions on the
+   formal-polynomial model -> stored coefficients), strings of any length: a string is accepted IF AND ONLY IF its
+   token list is a well-formed expression, and then the coefficients are those of the polynomial it denotes under
+   the usual precedence; what is not a well-formed expression (or not even a token sequence) is rejected.  The
+   extracted [run_yacc] is run against mps_parse_inline_poly_from_string on every input of the correspondence stage. *)
+Theorem C11_pipeline_property :
+  (forall s cs, run_yacc automaton_gen s = Some cs -> exists ts e, lex s = Some ts /\ d_sum ts e /\ cs = stored (denote e)) /\
+  (forall s ts e, lex s = Some ts -> d_sum ts e -> run_yacc automaton_gen s = Some (stored (denote e))) /\
+  (forall s ts, lex s = Some ts -> ~ well_formed ts -> run_yacc automaton_gen s = None) /\
+  (forall s, lex s = None -> run_yacc automaton_gen s = None).
+Proof. exact (conj run_yacc_property (conj run_yacc_complete (conj run_yacc_rejects_illformed run_yacc_rejects_unlexable))). Qed.
+Print Assumptions C11_pipeline_property.
+Example C11_pipeline_example :
+  run_yacc automaton_gen "-x^2*(x+1.5i) - 3/4" = Some [Copp (CofQ 3 4); C0; Copp (Cmul Ci (CofQ 3 2)); Copp C1] /\
+  run_yacc automaton_gen "x^1/2-3" = None /\ run_yacc automaton_gen "2ii" = None /\ run_yacc automaton_gen "x#" = None /\
+  run_yacc automaton_gen "x-x" = Some [C0] /\
+  option_map (Forall ytok_ok) (ylex "2*x^3+1e2i") = Some (Forall ytok_ok
+     [("RATIONAL", TNum 2 1 true); ("TIMES", TTimes); ("MONOMIAL", TX); ("SUPERSCRIPT", TPow); ("RATIONAL", TNum 3 1 true);
+      ("PLUS", TPlus); ("FLOATING_POINT", TNum 100 1 false); ("IMAGINARY_UNIT", TI)])%string.
+Proof. vm_compute. repeat split. Qed.
+
+(* BOUNDED (kept from the earlier round; now a corollary-by-computation of the two theorems above together with a
+   proof that parse_ref is complete, which is NOT formalised: the only direction this adds is "parse_ref rejects =>
+   the table rejects" for short lists): on every token list of length <= 6 over one representative of each kind of token the
    lexer can deliver (x, integer literal, rational with '/', decimal, i, + - * ^ ( )) the generated
    parser accepts exactly what the reference parser accepts and builds the same AST.  (1 948 717
-   token lists, decided by the kernel's VM.)  Longer inputs: differential testing only. *)
+   token lists, decided by the kernel's VM.)  For longer inputs "the table accepts e => parse_ref accepts e" is not proved (it
+   would follow from completeness of parse_ref for d_sum); both are proved equivalent to d_sum in the directions
+   stated above, and the two extracted parsers are compared on every input of the correspondence run. *)
 Theorem C11_yacc_agrees_ref_bounded : forall ys : list ytoken,
   (List.length ys <= 6)%nat -> Forall (fun y => In y alphabet) ys ->
   match lr_run automaton_gen ys, parse_ref (map snd ys) with
